@@ -390,9 +390,11 @@ impl<'g> Exec<'g> {
         };
         let before = if self.check_mutation { watch() } else { vec![] };
         arm(plan.n, plan.kind);
-        let res = catch_unwind(AssertUnwindSafe(|| match &input {
-            RInput::Doc { var, form, .. } => search_doc(expr, var, *form),
-            RInput::Typed(t, generic) => search_typed(expr, t, *generic),
+        let res = catch_unwind(AssertUnwindSafe(|| {
+            at_stack_depth(plan.stack_kib, &mut || match &input {
+                RInput::Doc { var, form, .. } => search_doc(expr, var, *form),
+                RInput::Typed(t, generic) => search_typed(expr, t, *generic),
+            })
         }));
         let (fired, calls) = disarm();
         let out = render(res);
@@ -1096,13 +1098,13 @@ impl<'g> Exec<'g> {
                                 tainted: t,
                                 form: *form,
                             },
-                            s.plan,
+                            Plan { stack_kib: 0, ..s.plan },
                             &no_watch,
                         );
                     }
                 }
                 SIn::Typed(tv, generic) => {
-                    this.do_search(s.i, &expr, s.rt, &s.text, RInput::Typed(tv, *generic), s.plan, &no_watch);
+                    this.do_search(s.i, &expr, s.rt, &s.text, RInput::Typed(tv, *generic), Plan { stack_kib: 0, ..s.plan }, &no_watch);
                 }
             }
         };
@@ -1140,6 +1142,19 @@ impl<'g> Exec<'g> {
             .ok()
             .and_then(|r| r.ok())
     }
+}
+
+/// Runs `f` after descending roughly `kib` KiB further into the stack (the main thread
+/// has 8 MiB): where on its stack a caller happens to be is not part of a call.
+#[inline(never)]
+pub fn at_stack_depth<T>(kib: u32, f: &mut dyn FnMut() -> T) -> T {
+    if kib == 0 {
+        return f();
+    }
+    let pad = [0u8; 16 * 1024];
+    let r = at_stack_depth(kib.saturating_sub(16), f);
+    std::hint::black_box(&pad);
+    r
 }
 
 /// Class-level view of a compile outcome: the full tree when it compiled,
